@@ -93,6 +93,7 @@ public:
     size_t read_burst = 0;          // 0: read everything available; else at most this many bytes per read event
     i64 read_interval_ns = 0;       // pause between read events when read_burst is set
     std::string received;
+    bool parse_http = true;         // feed what is received to `reader` (off for raw byte-stream clients)
     HttpReader reader;
     ClientStats st;
     std::shared_ptr<simk::ActorSock> sock;
